@@ -338,6 +338,17 @@ def rule_c(ctx):
         a0, a1 = norm(cs.canon(mt["args"][0])), norm(cs.canon(mt["args"][1]))
         ctx.check(a0.endswith(".selector") and a1 in ("arg3", "&arg3"), "C20-C", "computed_style:rule.selector.matches(element)", mt["span"], cs.id,
                   "matches(%s, %s)" % (a0[-60:], a1))
+        # every rule set is tested: no path through the rule loop's body skips the matches call (a rule that matches but is
+        # not looked at loses its declarations — and its specificity — to the cascade)
+        nb = None
+        for bb2, t2 in cs.calls(lambda cd, t2: callee_method(t2) == "next"):
+            if cs.dominates(bb2, mbb) and (nb is None or cs.dominates(nb, bb2)):
+                nb = bb2
+        from .C06 import _some_target
+        some = _some_target(cs, nb) if nb is not None else None
+        ctx.check(some is not None and nb not in cs.reach_from(some, avoid=[mbb]), "C20-C", "computed_style:every-rule-set-is-tested", mt["span"], cs.id,
+                  "a path through the rule loop skips selector.matches(): a matching rule can be passed over (e.g. as a "
+                  "'duplicate' of its neighbour), so its declarations and its specificity never reach the cascade")
         cut = edges_where(cs, lambda truth, src, a, s: truth is True and src is not None and src[0] == "call" and src[1] is mt)
         merges = [(bb, t) for bb, t in cs.calls(lambda cd, t: ends(cd, "StyleData::merge_computed_style"))
                   if "rule" in "" or "selector" in norm(cs.canon(t["args"][3])) or "specificity(" in norm(cs.canon(t["args"][3]))]
